@@ -16,15 +16,19 @@ Lemma rule_closed_form setup e :
         else if (String.eqb setup "circular" && (e_q1 e =? 0) && (e_q2 e =? e_n e - 1))%bool then LLabel "g" IQ2
         else LRaise).
 Proof.
+  (* by evaluation of the generated decision list: every integer comparison is decided, inconsistent cases are closed
+     by arithmetic -- independent of the order / nesting / redundancy of the generated conditions *)
   unfold swap_branches, swap_else. cbn [choose_label beval ieval].
-  destruct (e_q2 e - e_q1 e =? 1); [reflexivity|].
-  destruct (String.eqb setup "circular"); cbn [andb]; [|reflexivity].
-  destruct (e_q1 e =? 0); cbn [andb]; [|reflexivity].
-  destruct (e_q2 e =? e_n e - 1); reflexivity.
+  destruct (String.eqb setup "circular");
+    repeat match goal with |- context [Z.eqb ?a ?b] => destruct (Z.eqb_spec a b) end;
+    cbn; first [reflexivity | exfalso; lia].
 Qed.
 
+(* the scale factors of the control Hamiltonians, whatever expression the source uses for them *)
+Definition fam_scale (p : string) : ex :=
+  match find_family p ctrl_families 0 with Some (_, f) => cf_scale f | None => Num 0 end.
 Lemma family_g : find_family "g" ctrl_families 0 =
-  Some (2%nat, mkCF "g" HXY (Mul (Num 2) Pi) INumCoupling [ILoop; IMod (IAdd ILoop (IConst 1)) IN]).
+  Some (2%nat, mkCF "g" HXY (fam_scale "g") INumCoupling [ILoop; IMod (IAdd ILoop (IConst 1)) IN]).
 Proof. reflexivity. Qed.
 
 Lemma num_coupling_linear c : c_setup c = "linear" -> num_coupling c = Some (Z.of_nat (c_n c) - 1).
